@@ -544,6 +544,12 @@ func TestC19OracleSelfTest(t *testing.T) {
 		if a > b+1e-9*(1+b) || b > a*(1+2e-3)+1e-6 {
 			rt.Fatalf("oracles disagree: visibility graph %v, door DP %v on %+v", a, b, c)
 		}
+		// the O(k^2) slope-window oracle of the long corridors (C19L) must agree exactly where both apply
+		if c.StartClass == "edge" && c.EndClass == "edge" {
+			if w := sweepShortest(s, e, rs); math.Abs(w-a) > 1e-9*(1+a) {
+				rt.Fatalf("oracles disagree: visibility graph %v, slope-window sweep %v on %+v", a, w, c)
+			}
+		}
 	})
 }
 
@@ -634,3 +640,209 @@ func exhaustiveCorridors(t *testing.T, p *Property, fit bool) {
 	complete = true
 	st.Extra["exhaustive_corridors"] = fmt.Sprintf("all corridors of 1..%d rectangles with integer edges in 0..%d (%d corridors) x (5 + up to 9 interior) start x 5 end positions", K, G, corridors)
 }
+
+// ---------------------------------------------------------------------------------------------------------
+// C19L — long corridors (hundreds to thousands of rectangles), decided where the oracle is free.
+//
+// The visibility-graph oracle is cubic in the number of rectangles and stops being affordable around a dozen. One family
+// of long corridors needs no search at all: if the straight segment from start to end lies inside the corridor, the
+// Euclidean shortest path IS that segment. The generator builds such corridors by construction - every rectangle
+// contains a common core interval [cl, cr] of x, start and end lie in the core on the outer horizontal edges - with
+// straight walls (all left edges equal: every corner is collinear, both funnel chains grow to the full length of the
+// corridor) or walls that step outward and back by drawn amounts. Lengths sit around 512, 1024 and 2048 rectangles,
+// i.e. around 1024, 2048 and 4096 corner points per wall, where capacity thresholds of the router's deque would be
+// (seeded/r6-m19 grows the deque on demand beyond 1024 slots a side and invalidates the saved apex index).
+
+// sweepShortest: exact Euclidean shortest path length for a start on the top edge and an end on the bottom edge, in
+// O(k^2). The path is y-monotone and bends only at reflex vertices of the corridor, which are the end points of the
+// doors (the shared boundary segments). From every node (start, door end points) sweep downward keeping the window of
+// slopes dx/dy that pass through all doors met so far: a later node is visible iff its slope lies in the window.
+// Independent of the visibility-graph oracle (no segment clipping) and cross-checked against it in TestC19OracleSelfTest.
+func sweepShortest(s, t P, rs []Rect) float64 {
+	type door struct{ y, lo, hi float64 }
+	var doors []door
+	for i := 1; i < len(rs); i++ {
+		doors = append(doors, door{rs[i].TL.Y, math.Max(rs[i-1].TL.X, rs[i].TL.X), math.Min(rs[i-1].BR.X, rs[i].BR.X)})
+	}
+	n := len(doors)
+	// node 0 = s (level -1); nodes 1+2i, 2+2i = lo/hi end of door i; last = t (level n)
+	pts := []P{s}
+	lvl := []int{-1}
+	for i, d := range doors {
+		pts = append(pts, P{d.lo, d.y}, P{d.hi, d.y})
+		lvl = append(lvl, i, i)
+	}
+	pts = append(pts, t)
+	lvl = append(lvl, n)
+	dist := make([]float64, len(pts))
+	for i := range dist {
+		dist[i] = math.Inf(1)
+	}
+	dist[0] = 0
+	const tol = 1e-12
+	for a := 0; a < len(pts)-1; a++ {
+		if math.IsInf(dist[a], 1) {
+			continue
+		}
+		p := pts[a]
+		wlo, whi := math.Inf(-1), math.Inf(1)
+		relax := func(b int) {
+			q := pts[b]
+			sl := (q.X - p.X) / (q.Y - p.Y)
+			m := tol * (1 + math.Abs(sl))
+			if sl >= wlo-m && sl <= whi+m {
+				if v := dist[a] + math.Hypot(q.X-p.X, q.Y-p.Y); v < dist[b] {
+					dist[b] = v
+				}
+			}
+		}
+		for j := lvl[a] + 1; j < n && wlo <= whi+tol*(1+math.Abs(whi)); j++ {
+			d := doors[j]
+			relax(1 + 2*j)
+			relax(2 + 2*j)
+			wlo = math.Max(wlo, (d.lo-p.X)/(d.y-p.Y))
+			whi = math.Min(whi, (d.hi-p.X)/(d.y-p.Y))
+			if j == n-1 && wlo <= whi+tol*(1+math.Abs(whi)) {
+				relax(len(pts) - 1)
+			}
+		}
+		if lvl[a] == n-1 || n == 0 {
+			relax(len(pts) - 1)
+		}
+	}
+	return dist[len(pts)-1]
+}
+
+var propC19L = register(&Property{
+	ID: "C19L",
+	Rule: "corridors of 60..2300 stacked rectangles around a common core x-interval (walls straight, stepping outward, reaching far out at the top, or random walks that also step into the core), start strictly inside the top edge and end strictly inside the bottom edge; " +
+		"oracle: polyline from end to start, every segment inside the corridor, length == exact shortest length by an O(k^2) slope-window sweep over the door end points (and == |start-end| whenever that segment lies inside), 1e-9 relative. non-trivial = more than 512 rectangles and start.x != end.x",
+	New:   func() any { return &CorridorCase{} },
+	Gen:   func(rt *rapid.T, s *Stats) any { return genLongCorridor(rt) },
+	Check: func(c any) *Outcome { return checkC19L(c.(*CorridorCase)) },
+})
+
+func genLongCorridor(rt *rapid.T) *CorridorCase {
+	lo := []int{60, 500, 1020, 2040}[pickG(rt, "long_class", 4)]
+	k := rapid.IntRange(lo, lo+260).Draw(rt, "long_k")
+	cl := float64(rapid.IntRange(0, 50).Draw(rt, "core_l"))
+	cr := cl + float64(rapid.IntRange(2, 80).Draw(rt, "core_w"))
+	// wall style per side: 0 straight (every corner collinear), 1 steps outward by 0..3 units at drawn places,
+	// 2 the first rectangles reach far out on that side and the start sits out there (the path leans on one corner and
+	// then runs straight), 3 a random walk that may also step INTO the core (the path leans on many corners)
+	styleL, styleR := pickG(rt, "wall_l", 4), pickG(rt, "wall_r", 4)
+	walkL, walkR := 0.0, 0.0
+	head := rapid.IntRange(1, 3).Draw(rt, "head")
+	uniformH := rapid.Bool().Draw(rt, "uniform_h")
+	h0 := float64(rapid.IntRange(1, 40).Draw(rt, "h0"))
+	c := &CorridorCase{StartClass: "edge", EndClass: "edge"}
+	y := 0.0
+	for i := 0; i < k; i++ {
+		h := h0
+		if !uniformH {
+			h = float64(rapid.IntRange(1, 40).Draw(rt, "h"))
+		}
+		l, r := cl, cr
+		switch styleL {
+		case 1:
+			l -= float64(rapid.IntRange(0, 3).Draw(rt, "out_l"))
+		case 2:
+			if i < head {
+				l -= 50
+			}
+		case 3:
+			if rapid.IntRange(0, 3).Draw(rt, "walk_l?") == 0 {
+				walkL += float64(rapid.IntRange(-2, 2).Draw(rt, "walk_l"))
+			}
+			walkL = math.Max(-40, math.Min(walkL, (cr-cl)/2-1)) // never closer than 1 to the middle of the core
+			l += walkL
+		}
+		switch styleR {
+		case 1:
+			r += float64(rapid.IntRange(0, 3).Draw(rt, "out_r"))
+		case 2:
+			if i < head {
+				r += 50
+			}
+		case 3:
+			if rapid.IntRange(0, 3).Draw(rt, "walk_r?") == 0 {
+				walkR += float64(rapid.IntRange(-2, 2).Draw(rt, "walk_r"))
+			}
+			walkR = math.Max(-40, math.Min(walkR, (cr-cl)/2-1))
+			r -= walkR
+		}
+		c.Rects = append(c.Rects, XRect{L: l, T: y, R: r, B: y + h})
+		y += h
+	}
+	w := cr - cl
+	fs := float64(rapid.IntRange(1, 15).Draw(rt, "start_frac")) / 16
+	fe := float64(rapid.IntRange(1, 15).Draw(rt, "end_frac")) / 16
+	first, last := c.Rects[0], c.Rects[len(c.Rects)-1]
+	c.Start = XY{first.L + fs*(first.R-first.L), 0}
+	c.End = XY{last.L + fe*(last.R-last.L), y}
+	_ = w
+	return c
+}
+
+func checkC19L(c *CorridorCase) (o *Outcome) {
+	o = &Outcome{}
+	if err := c.wellFormed(); err != nil {
+		return o.failf("bad case: %v", err)
+	}
+	if classOf(c.Start, c.Rects[0], true) != "edge" || classOf(c.End, c.Rects[len(c.Rects)-1], false) != "edge" {
+		return o.failf("bad case: C19L wants the start strictly inside the top edge and the end strictly inside the bottom edge")
+	}
+	rs := c.rects()
+	s, e := P{c.Start.X, c.Start.Y}, P{c.End.X, c.End.Y}
+	scale := 1.0
+	for _, r := range rs {
+		scale = math.Max(scale, math.Max(math.Abs(r.BR.X), math.Abs(r.BR.Y)))
+	}
+	eps := 1e-9 * scale
+	straight := segInsideCorridor(s, e, rs, eps)
+	var path []P
+	func() {
+		defer func() {
+			if r := recover(); r != nil {
+				o.failf("Shortest panicked: %v", r)
+			}
+		}()
+		path = Shortest(s, e, rs)
+	}()
+	if o.Err != nil {
+		return o
+	}
+	if len(path) < 2 {
+		return o.failf("path has %d points", len(path))
+	}
+	if path[0] != e || path[len(path)-1] != s {
+		return o.failf("path of %d points does not run from the end point %v to the start point %v", len(path), e, s)
+	}
+	length := 0.0
+	for i := 1; i < len(path); i++ {
+		if !pointInCorridor(path[i], rs, eps) || !segInsideCorridor(path[i-1], path[i], rs, eps) {
+			return o.failf("segment %v - %v of the returned path (%d points) leaves the corridor", path[i-1], path[i], len(path))
+		}
+		length += math.Hypot(path[i].X-path[i-1].X, path[i].Y-path[i-1].Y)
+	}
+	if straight {
+		if want := math.Hypot(s.X-e.X, s.Y-e.Y); math.Abs(length-want) > 1e-9*(1+want) {
+			return o.failf("returned path has %d points and length %.12g; the straight segment from start to end lies inside the corridor and has length %.12g", len(path), length, want)
+		}
+	}
+	want := sweepShortest(s, e, rs)
+	if math.IsInf(want, 1) {
+		return o.failf("oracle found no path at all (bad case?)")
+	}
+	if math.Abs(length-want) > 1e-9*(1+want) {
+		return o.failf("returned path has %d points and length %.12g, the Euclidean shortest path inside the corridor has length %.12g", len(path), length, want)
+	}
+	o.class(fmt.Sprintf("rects>=%d", len(c.Rects)/500*500))
+	o.classIf(straight, "straight segment is inside")
+	o.classIf(len(path) > 2, "path_bends")
+	o.classIf(len(path) > 20, "path_bends>18")
+	o.NonTrivial = len(c.Rects) > 512 && s.X != e.X
+	return o
+}
+
+func TestC19Long(t *testing.T) { runGenerated(t, propC19L) }
